@@ -792,9 +792,9 @@ where
                 + self.chunk_size as f32 / self.resample_ratio as f32
                 + 0.5
                     * (self.chunk_size + 1) as f32
-                    * (1.0 / self.target_ratio as f32 - 1.0 / self.resample_ratio as f32))
-                .ceil() as usize
-                + POLYNOMIAL_LEN_U;
+                    * (1.0 / self.target_ratio as f32 - 1.0 / self.resample_ratio as f32)
+                + POLYNOMIAL_LEN_U as f32)
+                .ceil() as usize;
             Ok(())
         } else {
             Err(ResampleError::RatioOutOfBounds {
